@@ -19,7 +19,7 @@ ASSUMPTIONS = ['power / image tolerances 4e-2 (>= 6x the worst interpolation res
                'scale factors are drawn so that n*s is not within 1e-9 of an integer unless it is exactly one']
 PLAN = {'quick': {'gen': 8}, 'thorough': {'gen': 16, 'tests': 1, 'docs': 1}}
 REQUIRED_BUCKETS = ['s<1', 's>1', 's=1', 's:integer', 'shape:odd', 'shape:even', 'shape:nonsquare', 'monolithic', 'segmented',
-                    'resample', 'resample:refused', 'scalar-attributes', 'mask-dtype', 'amp:signed', 's:decimal-near-integer-product', 'subclass:property-override', 'opd:exact-zeros', 'array-dtype', 'pair:same-output-size', 'amp:node-on-samples']
+                    'resample', 'resample:refused', 'scalar-attributes', 'mask-dtype', 'amp:signed', 's:decimal-near-integer-product', 'subclass:property-override', 'opd:exact-zeros', 'array-dtype', 'pair:same-output-size', 'amp:node-on-samples', 'opd-only-plane']
 REQUIRED_ANCHORS = ['probe:Plane.rescale', 'anchor:Plane.resample', 'anchor:util.rescale', 'anchor:_plane_slice']
 REQUIRED_ORACLES = ['pixelscale/s', 'shape=ceil(n*s)', 'mask:binary+segments', 'original-untouched', 'identity', 'power',
                     'image', 'extent', 'resample=rescale', 'resample:refused']
@@ -430,6 +430,33 @@ def workload(ctx, lentil):
                           dict(desc, a=a0, got=np.asarray(qm.amplitude).tolist(), P=[Pm0, Pm1], area=[area0, area1]), scale=Pm0)
             except Exception as e:
                 ctx.check(False, 'power', f'rescale|scalar-amplitude|raises={type(e).__name__}', str(e), desc)
+            # a plane described by an OPD map alone (uniform illumination, no mask array - the map's own extent is the aperture):
+            # the image at a fixed output sampling is preserved like that of any other plane (factors that keep the extent exact)
+            for s_o in (2.0, 0.5, 3.0, 1.5):
+                # (sizes for which the 24-sample output window stays inside one period of the coarser of the two samplings; the hard
+                # edge of the map limits the agreement to a few per cent: twice the tolerance of the smooth apertures)
+                no = (2 * int(rng.integers(16, 25)), 2 * int(rng.integers(8, 25)))
+                ro, co = np.indices(no)
+                opd_o = 0.2 * wl * np.exp(-(((ro - no[0] // 2) / (0.3 * no[0])) ** 2 + ((co - no[1] // 2) / (0.3 * no[1])) ** 2))
+                a_o = float(rng.uniform(0.3, 2.0)) if i % 2 else None
+                d_o = dict(desc, opd_only=list(no), s=s_o, amplitude=a_o)
+                ctx.bucket('opd-only-plane')
+                try:
+                    po = lentil.Pupil(opd=opd_o, pixelscale=dx, focal_length=z, **({} if a_o is None else {'amplitude': a_o}))
+                    qo = po.rescale(s_o)
+                    want_shape = (int(np.ceil(no[0] * s_o)), int(np.ceil(no[1] * s_o)))
+                    ctx.check(tuple(np.shape(qo.opd)) == want_shape and tuple(qo.pixelscale) == (dx / s_o, dx / s_o), 'shape=ceil(n*s)',
+                              'rescale|opd-only|bookkeeping', 'an OPD-only plane is not resampled to ceil(n*s) samples at pixelscale/s',
+                              dict(d_o, got=list(np.shape(qo.opd)), ps=list(qo.pixelscale)))
+                    with probe.quiet():
+                        du_o = wl * z / (dx * no[0]) / 2
+                        ia = lentil.propagate_dft(lentil.Wavefront(wl) * po, du_o, shape=24, oversample=1).intensity
+                        ib = lentil.propagate_dft(lentil.Wavefront(wl) * qo, du_o, shape=24, oversample=1).intensity
+                    ctx.close('image', ib, ia, 2 * TOL, 'rescale|image|opd-only', 'the propagated image of an OPD-only plane at a fixed output '
+                              'sampling is not preserved to interpolation accuracy', dict(d_o, sums=[float(ia.sum()), float(ib.sum())]),
+                              scale=float(ia.max()))
+                except Exception as e:
+                    ctx.check(False, 'image', f'rescale|opd-only|raises={type(e).__name__}', str(e), d_o)
             # planes without any array (an attenuator, a tilt, a default pupil or image): only the pixel scale changes
             for mk_plane in (lambda: lentil.Pupil(amplitude=0.5, pixelscale=dx, focal_length=z), lambda: lentil.Image(pixelscale=dx),
                              lambda: lentil.Tilt(x=1e-6, y=-2e-6, pixelscale=dx)):
